@@ -10,7 +10,7 @@ def registry():
     from . import runchecks as R
     reg = {
         "C01": R.check_C01, "C02": R.check_C02, "C03": R.check_C03, "C04": R.check_C04,
-        "C05": R.check_C05, "C06": R.check_C06, "C13": R.check_C13, "C09": R.check_C09, "C10": R.check_C10, "C15": R.check_C15, "C07": R.check_C07, "C20": R.check_C20, "C11": R.check_C11, "C08": R.check_C08, "C16": R.check_C16, "C12": R.check_C12, "C14": R.check_C14, "C17": R.check_C17, "C18": R.check_C18run, "C19": R.check_C19run,
+        "C05": R.check_C05, "C06": R.check_C06, "C13": R.check_C13, "C09": R.check_C09, "C10": R.check_C10, "C15": R.check_C15, "C07": R.check_C07, "C20": R.check_C20, "C11": R.check_C11, "C08": R.check_C08, "C16": R.check_C16, "C12": R.check_C12, "C14": R.check_C14, "C17": R.check_C17, "C18": R.check_C18, "C19": R.check_C19,
     }
     return reg
 
